@@ -292,6 +292,120 @@ def run(ctx):
             ctx.ok('R-API', q, 'src/PseudoNetCDF/%s %s' % (CAMX + wrp, q), 'numpy names resolve')
     # FortranFileUtil.writeline: struct.pack(prefix + 'i' + fmt + 'i', n, ..., n)
     check_writeline(ctx)
+    # reader side: probing the first record for a key must not raise on the data an unkeyed file starts with
+    check_probe_total(ctx)
+
+
+TOTAL_CODECS = ('latin1', 'latin-1', 'latin_1', 'iso-8859-1', 'iso8859-1', 'l1', 'cp437', 'cp1252x')[:7]
+
+
+def _decode_calls(fn):
+    return [c for c in walk_expr(fn) if isinstance(c, ast.Call) and isinstance(c.func, ast.Attribute) and c.func.attr == 'decode']
+
+
+def _decode_total(c):
+    """can bytes.decode(...) as called raise on some byte string?  total = it cannot"""
+    err = kw(c, 'errors') if kw(c, 'errors') is not None else (c.args[1] if len(c.args) > 1 else None)
+    if err is not None:
+        e = const_str(err)
+        return e is not None and e != 'strict'
+    enc = kw(c, 'encoding') if kw(c, 'encoding') is not None else (c.args[0] if c.args else None)
+    e = const_str(enc) if enc is not None else None
+    return e is not None and e.lower() in TOTAL_CODECS
+
+
+def check_probe_total(ctx):
+    """R-PROBETOTAL.  A reader that tells file variants apart by comparing the start of the first record with key strings, and has a
+    branch for 'no key' (old-style land-use files start with float data), must obtain the probed value by an operation that is
+    defined for every byte string.  The record-file helpers decode what they unpack with the strict default codec: on data bytes
+    that raises UnicodeDecodeError, so the 'no key' branch is unreachable for most files the encoder of the format produces."""
+    ctx.rule('R-PROBETOTAL', 'a key probe with a no-key branch reads the probed bytes with an operation that cannot raise on data bytes')
+    src = ctx.src
+    util = src.mod(CAMX + 'FortranFileUtil.py')
+    nprobe = 0
+    for m in src.all_modules():
+        if not (m.relpath.startswith(CAMX) and m.relpath.rsplit('/', 1)[-1] in ('Memmap.py', 'Read.py')):
+            continue
+        for q, fn in sorted(m.functions.items()):
+            for st in iter_stmts(fn.body):
+                if not isinstance(st, ast.If):
+                    continue
+                par = getattr(st, '_parent', None)
+                if isinstance(par, ast.If) and par.orelse == [st]:
+                    continue        # an elif arm: handled from the head of its chain
+                # collect the chain
+                keys, cur, name, fall = [], st, None, None
+                while True:
+                    t = cur.test
+                    if not (isinstance(t, ast.Compare) and len(t.ops) == 1 and isinstance(t.ops[0], ast.Eq) and isinstance(t.left, ast.Name)
+                            and isinstance(t.comparators[0], ast.Constant) and isinstance(t.comparators[0].value, (str, bytes))):
+                        keys = []
+                        break
+                    if name not in (None, t.left.id):
+                        keys = []
+                        break
+                    name = t.left.id
+                    keys.append(t.comparators[0].value)
+                    if len(cur.orelse) == 1 and isinstance(cur.orelse[0], ast.If):
+                        cur = cur.orelse[0]
+                        continue
+                    fall = cur.orelse
+                    break
+                if len(keys) < 2:
+                    continue
+                # the probed name must come from a read of the file in this function
+                bind = None
+                for s2 in iter_stmts(fn.body):
+                    if s2.lineno >= st.lineno:
+                        break
+                    if isinstance(s2, ast.Assign) and len(s2.targets) == 1:
+                        tg = s2.targets[0]
+                        if isinstance(tg, ast.Tuple) and len(tg.elts) == 1:
+                            tg = tg.elts[0]
+                        if isinstance(tg, ast.Name) and tg.id == name:
+                            bind = s2
+                if bind is None:
+                    continue
+                reads = [c for c in walk_expr(bind.value) if isinstance(c, ast.Call) and isinstance(c.func, ast.Attribute)
+                         and c.func.attr in ('read', 'unpack', 'aread')]
+                if not reads:
+                    continue
+                nprobe += 1
+                where = 'src/PseudoNetCDF/%s %s' % (m.relpath, q)
+                oid = '%s:%s' % (m.relpath.split('/')[1], name)
+                nokey_ok = not (fall and all(isinstance(x, ast.Raise) for x in fall[-1:]))
+                if not nokey_ok:
+                    ctx.ok('R-PROBETOTAL', oid, where, 'every file without one of the keys %s is rejected' % (keys,))
+                    continue
+                rd = reads[0]
+                fmtarg = rd.args[0] if rd.args else None
+                if isinstance(fmtarg, ast.Constant) and isinstance(fmtarg.value, str):
+                    # struct-style read through the record-file helper: follow OpenRecordFile.<read|unpack> into unpack_from_file
+                    meths = [f for k, f in sorted(util.functions.items()) if k.endswith('.' + rd.func.attr)]
+                    if not meths:
+                        ctx.undec('R-PROBETOTAL', oid, where, 'reader method %s not resolved' % rd.func.attr)
+                        continue
+                    bodies = meths + [util.functions[c.func.id] for meth in meths for c in walk_expr(meth) if isinstance(c, ast.Call)
+                                      and isinstance(c.func, ast.Name) and c.func.id in util.functions]
+                    decs = [c for b in bodies for c in _decode_calls(b)]
+                    partial = [c for c in decs if not _decode_total(c)]
+                    if partial:
+                        ctx.violation(Finding('R-PROBETOTAL', m.relpath, q, bind,
+                                              '%s is probed for the keys %s and any other content is taken as a file without key records, but the '
+                                              'probe goes through %s, which decodes the bytes with the strict default codec (%s): the float data an '
+                                              'unkeyed file starts with raise UnicodeDecodeError, so such files cannot be opened'
+                                              % (name, keys, 'OpenRecordFile.' + rd.func.attr, norm(partial[0]))), oid=oid)
+                    else:
+                        ctx.ok('R-PROBETOTAL', oid, where, 'record-file helper decodes with a total codec (%d decode calls)' % len(decs))
+                    continue
+                # raw read of n bytes, compared as bytes or decoded with a total codec
+                outer = [c for c in _decode_calls(bind.value)]
+                if all(_decode_total(c) for c in outer):
+                    ctx.ok('R-PROBETOTAL', oid, where, 'probe reads raw bytes%s' % (' and decodes them with a codec defined for every byte' if outer else ''))
+                else:
+                    ctx.violation(Finding('R-PROBETOTAL', m.relpath, q, bind,
+                                          '%s is probed for the keys %s with a no-key branch, but %s can raise on data bytes' % (name, keys, norm(outer[0]))), oid=oid)
+    ctx.floor('key probes judged by R-PROBETOTAL', nprobe, 1)
 
 
 def check_landuse_pads(ctx, lm):
